@@ -43,6 +43,12 @@ def r1(ck):
         for bb, t in fn.calls():
             if fn.blocks[bb]["cleanup"] or "p" in t["dest"]:
                 continue
+            if (t["dty"] or "").startswith("core::result::Result<core::result::Result<") and (callee_of(t).get("path") or "").split("::")[-1] in ("map", "map_or", "and"):
+                # `.map(|x| fallible(x))` where `.and_then(..)` is meant: the closure's own Result ends up *inside* the Ok value and is
+                # thrown away with it
+                ck.violate(rule, "result of the closure given to %s in %s" % ((callee_of(t).get("path") or "").split("::")[-1], fid),
+                           "a closure that returns a Result is applied with `map`: its error becomes part of the Ok value (%s) and is never "
+                           "looked at - a failed output operation inside it would go unnoticed" % t["dty"][:90], fn.where(t))
             if not errflow.error_result_ty(t["dty"]):
                 continue
             if t["dest"]["l"] == 0:
